@@ -60,6 +60,12 @@ type c08Eff struct {
 	U    int    `json:"u,omitempty"`    // auth: user id
 	Size int    `json:"size,omitempty"` // log: rotate_size in MB
 	OK   bool   `json:"ok,omitempty"`   // log: startup callback can open the file
+	Via  string `json:"via,omitempty"`  // log with !OK: which startup callback fails: "" the one of `log` (output file in a missing directory), "errors" the one of `errors` (same), "plugin" an OnStartup callback of a plugin directive, "plugin-first" an OnFirstStartup callback of a plugin directive (runs for a load only: the line is inert in every other mode)
+}
+
+// c08Inert: the effect plays no part in an attempt of this mode (an OnFirstStartup callback is run by casket.Start only)
+func c08Inert(mode string, e *c08Eff) bool {
+	return e.K == "log" && !e.OK && e.Via == "plugin-first" && mode != "load"
 }
 
 type c08Cfg struct {
@@ -107,6 +113,7 @@ type c08Obs struct {
 	Roll  int      `json:"roll"`  // 0 not probed, 1 no rotation, 2 rotated
 	Fired []int    `json:"fired"` // birth step of every hook that ran when the three events were emitted, sorted
 	Probe []int    `json:"probe"` // steps whose proxy health-check workers probed the loopback backend after this step, sorted
+	Ids   []int    `json:"ids"`   // casket.Instances() in list order: the configuration each instance was made from (marker in its Casketfile; 0 = none)
 }
 
 const c08ChildTimeout = 90 * time.Second
@@ -151,7 +158,7 @@ func c08Valid(mode string, c *c08Cfg, env map[int]c08Ht) bool {
 		case "bad":
 			return false
 		case "log":
-			if !e.OK && !c08DirectivesOnly(mode) {
+			if !e.OK && !c08DirectivesOnly(mode) && !c08Inert(mode, &e) {
 				return false
 			}
 		case "auth":
@@ -365,6 +372,17 @@ func (ch *c08Child) render(c *c08Cfg, step int) string {
 				p := ch.logPath(e.F)
 				if !e.OK {
 					p = filepath.Join(ch.dir, "missing-dir", "x.log")
+					switch e.Via {
+					case "errors":
+						lines = append(lines, "errors "+filepath.Join(ch.dir, "missing-dir", "e.log"))
+						continue
+					case "plugin":
+						lines = append(lines, "c08startup")
+						continue
+					case "plugin-first":
+						lines = append(lines, "c08startup first")
+						continue
+					}
 				}
 				lines = append(lines, fmt.Sprintf("log / %s \"{>X-Pad}\" {\n\t\trotate_size %d\n\t}", p, e.Size))
 			case "auth":
@@ -539,6 +557,9 @@ func c08Basic(u, pw string) map[string]string {
 // authUser of the configuration an instance was started from (recovered from its Casketfile text)
 var c08AuthRe = regexp.MustCompile(`basicauth / (u\d+) `)
 
+// the configuration an instance was made from (the marker header of its Casketfile)
+var c08CfgRe = regexp.MustCompile(`header / X-Cfg c(\d+)`)
+
 func (ch *c08Child) observe(step int, o *c08Obs) {
 	insts := casket.Instances()
 	o.NInst = len(insts)
@@ -560,10 +581,18 @@ func (ch *c08Child) observe(step int, o *c08Obs) {
 	}
 	o.Sites = [][]int{}
 	o.Auth = [][]int{}
+	o.Ids = []int{}
 	for _, inst := range insts {
 		ms := []int{}
 		au := []int{0, 0, 0}
 		user := "u1"
+		id := 0
+		if inst.Casketfile() != nil {
+			if m := c08CfgRe.FindStringSubmatch(string(inst.Casketfile().Body())); m != nil {
+				id, _ = strconv.Atoi(m[1])
+			}
+		}
+		o.Ids = append(o.Ids, id)
 		if inst.Casketfile() != nil {
 			if m := c08AuthRe.FindStringSubmatch(string(inst.Casketfile().Body())); m != nil {
 				user = m[1]
@@ -671,7 +700,7 @@ func c08MsgClass(e string) string {
 		return "auth-open"
 	case strings.Contains(e, "address already in use"):
 		return "listen"
-	case strings.Contains(e, "no such file or directory"):
+	case strings.Contains(e, "no such file or directory") || strings.Contains(e, "c08: startup callback"):
 		return "startup"
 	}
 	return "other"
@@ -834,14 +863,33 @@ func c08ChildMain(args []string) int {
 	ch.busyPort = ch.busy.Addr().(*net.TCPAddr).Port
 	ch.busyIno = c08ListenerIno(ch.busy)
 	ch.ownInos[ch.busyIno] = true
-	usesProxy, usesPanic := false, false
+	usesProxy, usesPanic, usesStartup := false, false, false
 	for i := range in.Ops {
 		if c := in.Ops[i].Cfg; c != nil {
 			usesPanic = usesPanic || c.Panic
 			for _, e := range c.Effs {
 				usesProxy = usesProxy || e.K == "proxy"
+				usesStartup = usesStartup || strings.HasPrefix(e.Via, "plugin")
 			}
 		}
+	}
+	if usesStartup {
+		// a plugin directive whose startup callback (OnStartup, or OnFirstStartup with the argument `first`) fails
+		stdout := os.Stdout
+		os.Stdout, _ = os.Open(os.DevNull)
+		httpserver.RegisterDevDirective("c08startup", "")
+		os.Stdout = stdout
+		casket.RegisterPlugin("c08startup", casket.Plugin{ServerType: "http", Action: func(c *casket.Controller) error {
+			fail := func() error { return fmt.Errorf("c08: startup callback of the plugin refuses to start") }
+			for c.Next() {
+				if c.NextArg() && c.Val() == "first" {
+					c.OnFirstStartup(fail)
+				} else {
+					c.OnStartup(fail)
+				}
+			}
+			return nil
+		}})
 	}
 	if usesProxy {
 		if err := ch.startBackend(); err != nil {
@@ -997,7 +1045,7 @@ func c08HtTerm(h c08Ht) string {
 	return cApp("Build_htfile", cBool(h.Present), cList(us), cBool(h.Bad))
 }
 
-func c08CfgTerm(c *c08Cfg) string {
+func c08CfgTerm(c *c08Cfg, mode string) string {
 	pf := map[string]string{"": "PNone", "syntax": "PSyntax", "unknown": "PUnknown", "import": "PImport",
 		"loader-gone": "PLoader", "loader-unreadable": "PLoader", "loader-error": "PLoader"}[c.Parse]
 	if pf == "" {
@@ -1011,6 +1059,9 @@ func c08CfgTerm(c *c08Cfg) string {
 		case "on":
 			effs = append(effs, cApp("EOn", cNat(e.N)))
 		case "log":
+			if c08Inert(mode, &e) {
+				continue // an OnFirstStartup callback: not run by this kind of attempt
+			}
 			effs = append(effs, cApp("ELog", cN(uint64(e.F)), cN(uint64(e.Size)), cBool(e.OK)))
 		case "auth":
 			effs = append(effs, cApp("EAuth", cN(uint64(e.F)), cN(uint64(e.U))))
@@ -1038,9 +1089,9 @@ func c08OpTerm(op *c08Op) string {
 		return cPair(cApp("OWrite", cN(uint64(op.F)), c08HtTerm(*op.Ht)), "false")
 	}
 	if op.Cfg.Panic {
-		return cPair(cApp("OPanic", cBool(op.Kind == "sigusr1"), c08CfgTerm(op.Cfg)), cBool(op.Roll))
+		return cPair(cApp("OPanic", cBool(op.Kind == "sigusr1"), c08CfgTerm(op.Cfg, op.Kind)), cBool(op.Roll))
 	}
-	return cPair(cApp("OAttempt", c08ModeTerm[op.Kind], c08CfgTerm(op.Cfg)), cBool(op.Roll))
+	return cPair(cApp("OAttempt", c08ModeTerm[op.Kind], c08CfgTerm(op.Cfg, op.Kind)), cBool(op.Roll))
 }
 
 func c08IntsTerm(xs []int) string {
@@ -1060,7 +1111,7 @@ func c08ObsTerm(o *c08Obs) string {
 		auth = append(auth, c08IntsTerm(s))
 	}
 	return cApp("Build_obs", cN(uint64(o.Res)), cBool(o.Ms >= 5000), cN(uint64(o.NInst)), c08IntsTerm(o.Hooks),
-		cNList(o.Socks), cN(uint64(o.Fds)), cList(sites), cList(auth), cN(uint64(o.Roll)), c08IntsTerm(o.Fired), c08IntsTerm(o.Probe))
+		cNList(o.Socks), cN(uint64(o.Fds)), cList(sites), cList(auth), cN(uint64(o.Roll)), c08IntsTerm(o.Fired), c08IntsTerm(o.Probe), c08IntsTerm(o.Ids))
 }
 
 // ---------------------------------------------------------------------------------------------
@@ -1084,7 +1135,7 @@ func c08ErrClass(o *c08Obs) string {
 }
 
 // stage at which the configuration is meant to fail, for the class name
-func c08Stage(c *c08Cfg, env map[int]c08Ht) (stage string, onBefore bool) {
+func c08Stage(c *c08Cfg, env map[int]c08Ht, mode string) (stage string, onBefore bool) {
 	if strings.HasPrefix(c.Parse, "loader-") {
 		return "loader", false
 	}
@@ -1101,7 +1152,7 @@ func c08Stage(c *c08Cfg, env map[int]c08Ht) (stage string, onBefore bool) {
 				onBefore = true
 			}
 		case "log":
-			if !e.OK {
+			if !e.OK && !c08Inert(mode, &e) {
 				startup = true
 			}
 		case "auth":
@@ -1167,6 +1218,25 @@ func c08EqII(a, b [][]int) bool {
 	return true
 }
 
+// c08InstsLive: every entry of casket.Instances() is a running instance: it has servers and each of them answers
+// with the marker of the configuration the instance was made from
+func c08InstsLive(o *c08Obs) bool {
+	if len(o.Ids) != o.NInst || len(o.Sites) != o.NInst {
+		return false
+	}
+	for i, ms := range o.Sites {
+		if len(ms) == 0 {
+			return false
+		}
+		for _, m := range ms {
+			if m != o.Ids[i] {
+				return false
+			}
+		}
+	}
+	return true
+}
+
 // c08Label names the first clause of the property that the observations violate ("pass" if none).
 func c08Label(in *c08In, full, ref []c08Obs) string {
 	env := c08EnvOf(in)
@@ -1226,7 +1296,7 @@ func c08Label(in *c08In, full, ref []c08Obs) string {
 		if mode == "reload" || mode == "sigusr1" {
 			rmode = "restart"
 		}
-		stage, onBefore := c08Stage(op.Cfg, env)
+		stage, onBefore := c08Stage(op.Cfg, env, mode)
 		if c08DirectivesOnly(mode) && (stage == "startup" || strings.HasPrefix(stage, "listen")) {
 			stage = "valid"
 		}
@@ -1268,7 +1338,7 @@ func c08Label(in *c08In, full, ref []c08Obs) string {
 				hstage = "after-on"
 			}
 			switch {
-			case o.NInst != prev.NInst:
+			case o.NInst != prev.NInst || !c08EqInts(o.Ids, prev.Ids):
 				return "frame:instances:" + mode + ":" + stage
 			case !c08EqInts(o.Hooks, prev.Hooks):
 				return "frame:hooks:" + mode + ":" + hstage
@@ -1294,6 +1364,9 @@ func c08Label(in *c08In, full, ref []c08Obs) string {
 		if !c08EqInts(o.Fired, o.Hooks) {
 			return "hooks-unreachable:" + mode + ":" + stage
 		}
+		if !c08InstsLive(o) {
+			return "dead-instance:" + mode + ":" + stage
+		}
 		if c08Valid(mode, op.Cfg, env) {
 			if i+1 >= len(ref) {
 				return "reference-incomplete"
@@ -1307,7 +1380,7 @@ func c08Label(in *c08In, full, ref []c08Obs) string {
 				return "asif:res:" + c08ErrClass(o)
 			case (mode == "load" || c08DirectivesOnly(mode)) && o.Res != 0:
 				return "valid-fails:" + mode + ":" + c08ErrClass(o)
-			case o.NInst != rf.NInst:
+			case o.NInst != rf.NInst || !c08EqInts(o.Ids, rf.Ids):
 				return "asif:instances"
 			case !c08EqInts(o.Hooks, rf.Hooks):
 				return "asif:hooks"
@@ -1387,7 +1460,7 @@ func c08RunOne(in *c08In) Result {
 		full = append(full, dead)
 	}
 	if len(full) == 0 || len(ref) == 0 {
-		return Result{Term: "(CHist [] [] (Build_obs 9%N false 0%N [] [] 0%N [] [] 0%N) [] [])", Sig: "harness:no-observation",
+		return Result{Term: "(CHist [] [] (Build_obs 9%N false 0%N [] [] 0%N [] [] 0%N [] [] []) [] [])", Sig: "harness:no-observation",
 			Obs: map[string]interface{}{"full": crashF, "ref": crashR}, Direct: "the history could not be run: " + crashF + crashR, Class: "harness-error"}
 	}
 	var envT, opsT, fullT, refT []string
@@ -1523,9 +1596,14 @@ func c08MkCfg(id int, ft c08Feat, fault string, htf int) *c08Cfg {
 	if ft.Log > 0 {
 		c.Effs = append(c.Effs, c08Eff{K: "log", F: 1, Size: ft.Log, OK: true})
 	}
-	if fault == "startup" {
-		// the failing startup callback comes after the one that succeeds (and registers its roller)
-		c.Effs = append(c.Effs, c08Eff{K: "log", F: 3, Size: 7, OK: false})
+	if strings.HasPrefix(fault, "startup") {
+		// the failing startup callback comes after the one that succeeds (and registers its roller): the one of
+		// `log`, of `errors` (both: output file in a missing directory), or of a plugin directive (OnStartup / OnFirstStartup)
+		via := strings.TrimPrefix(strings.TrimPrefix(fault, "startup"), "-")
+		c.Effs = append(c.Effs, c08Eff{K: "log", F: 3, Size: 7, OK: false, Via: via})
+		if strings.HasPrefix(via, "plugin") {
+			ft.Proxy = false // a plugin's callbacks run after those of `proxy`; the model runs the failing callback before them
+		}
 	}
 	if fault == "bad1" {
 		c.Effs = append(c.Effs, c08Eff{K: "bad", N: 1})
@@ -1604,6 +1682,9 @@ func c08RandCfg(r *Rand, id int, valid bool) *c08Cfg {
 	fault := ""
 	if !valid {
 		fault = c08Faults[r.Intn(len(c08Faults))]
+		if fault == "startup" {
+			fault = c08StartupFaults[r.Intn(len(c08StartupFaults))]
+		}
 	}
 	htf := 1 + r.Intn(2)
 	c := c08MkCfg(id, ft, fault, htf)
@@ -1623,6 +1704,32 @@ func c08RandHt(r *Rand) *c08Ht {
 		return c08Users([2]int{2, 1})
 	}
 	return c08Users([2]int{1, 1 + r.Intn(2)}, [2]int{2, 1})
+}
+
+// c08StartupFaults: a startup callback fails (the stage after the directives and MakeServers, before any listener)
+var c08StartupFaults = []string{"startup", "startup-errors", "startup-plugin", "startup-plugin-first"}
+
+// c08Tail: a running site; an attempt in the given mode that fails in a STARTUP CALLBACK; then at least two
+// further steps - a valid reload, another valid reload (the other way), a reload refused at Listen with the
+// running site's address kept (it inherits the listener of instances[0]), a last valid reload - with the
+// instance list (length, which configuration each entry was made from, which of them serve) observed after
+// every step: an instance that a failed start left in the list shows directly, becomes instances[0] after the
+// first good reload and is what every later reload restarts.
+func c08Tail(mode, fault string, ft c08Feat, sigFirst bool, tag string) *c08In {
+	in := &c08In{Name: fmt.Sprintf("tmpl/%s/%s/tail-%s", mode, fault, tag), Files: map[string]c08Ht{"1": *c08Users([2]int{1, 1})}}
+	pf := ft
+	pf.Log = 0
+	in.Ops = append(in.Ops, c08Op{Kind: "load", Cfg: c08MkCfg(1, pf, "", 1)})
+	in.Ops = append(in.Ops, c08Op{Kind: mode, Cfg: c08MkCfg(2, ft, fault, 1)})
+	a, b := "reload", "sigusr1"
+	if sigFirst {
+		a, b = b, a
+	}
+	in.Ops = append(in.Ops, c08Op{Kind: a, Cfg: c08MkCfg(3, pf, "", 1)})
+	in.Ops = append(in.Ops, c08Op{Kind: b, Cfg: c08MkCfg(4, pf, "", 1)})
+	in.Ops = append(in.Ops, c08Op{Kind: a, Cfg: c08MkCfg(5, c08Feat{}, "busy-multi", 1)})
+	in.Ops = append(in.Ops, c08Op{Kind: b, Cfg: c08MkCfg(6, pf, "", 1)})
+	return in
 }
 
 func c08Random(r *Rand, maxLen int, k int) *c08In {
@@ -1740,6 +1847,20 @@ func c08Gen(r *Rand, tier string) []interface{} {
 			c08Op{Kind: "reload", Cfg: c08MkCfg(8, bare, "busy-multi", 1)}, c08Op{Kind: "load", Cfg: c08MkCfg(9, bare, "", 1)})
 		ins = append(ins, z)
 	}
+	// a failing startup callback of every kind, in every mode that runs them, followed by >= 2 further steps
+	k := 0
+	for _, f := range c08StartupFaults {
+		for _, m := range []string{"load", "reload", "sigusr1"} {
+			if f == "startup-plugin-first" && m != "load" {
+				continue // an OnFirstStartup callback is run by casket.Start only
+			}
+			k++
+			ins = append(ins, c08Tail(m, f, bare, k%2 == 0, "bare"))
+			if tier == "thorough" || k%2 == 1 {
+				ins = append(ins, c08Tail(m, f, c08Feat{On: 1, Log: 50}, k%2 == 1, "onlog"))
+			}
+		}
+	}
 	nrand, maxLen := 60, 6
 	if tier == "thorough" {
 		nrand, maxLen = 2200, 10
@@ -1758,7 +1879,7 @@ func c08Gen(r *Rand, tier string) []interface{} {
 func init() {
 	register(&Property{
 		ID: "C08", Imports: "V.Lib V.C08_Model", Judge: "judge", Shard: 40,
-		Rule:   "histories of load (casket.Start) / validate / reload (Instance.Restart) / SIGUSR1 attempts and htpasswd-file rewrites, run in-process in a fresh child of the harness with a watchdog per attempt: templates {load, validate, reload, SIGUSR1, API-driven execute} x {syntax error, unknown directive, missing import, Casketfile removed / unreadable / loader error at that moment (SIGUSR1: at signal time, with a running configuration that has `on` hooks), bad argument early/mid/late/after proxy in directive order, bad `on` line after good ones, htpasswd missing/malformed/without the user, failing startup callback, port in use alone/after another listener, a plugin whose setup panics during a reload} x feature sets (on, log roller, basicauth htpasswd, proxy with a health check of a loopback backend, two listeners), each followed by a valid load/reload using the same files, plus random histories (<= 6 steps quick, <= 10 thorough); every history is also run with the invalid attempts erased; after every step the events are emitted (which hooks run) and the backend is watched (whose workers probe); non-trivial = at least one attempt failed and the history ran to its end",
+		Rule:   "histories of load (casket.Start) / validate / reload (Instance.Restart) / SIGUSR1 attempts and htpasswd-file rewrites, run in-process in a fresh child of the harness with a watchdog per attempt: templates {load, validate, reload, SIGUSR1, API-driven execute} x {syntax error, unknown directive, missing import, Casketfile removed / unreadable / loader error at that moment (SIGUSR1: at signal time, with a running configuration that has `on` hooks), bad argument early/mid/late/after proxy in directive order, bad `on` line after good ones, htpasswd missing/malformed/without the user, failing startup callback, port in use alone/after another listener, a plugin whose setup panics during a reload} x feature sets (on, log roller, basicauth htpasswd, proxy with a health check of a loopback backend, two listeners), each followed by a valid load/reload using the same files; every kind of failing startup callback (`log` / `errors` output file in a missing directory, OnStartup / OnFirstStartup callback of a plugin directive) in load / reload / SIGUSR1 followed by >= 2 further steps (valid reload, valid reload the other way, reload refused at Listen keeping the running address, valid reload) with casket.Instances() observed after every step (length, configuration of every entry, which entries serve); plus random histories (<= 6 steps quick, <= 10 thorough); every history is also run with the invalid attempts erased; after every step the events are emitted (which hooks run) and the backend is watched (whose workers probe); non-trivial = at least one attempt failed and the history ran to its end",
 		Gen:    c08Gen,
 		Decode: func(raw json.RawMessage) (interface{}, error) { in := &c08In{}; return in, json.Unmarshal(raw, in) },
 		Run:    c08Run,
